@@ -28,6 +28,18 @@ type Env struct {
 	siteOptional bool
 	inQuant      int
 	nameSens     []string
+	// side collects, for the innermost enclosing binder, the postconditions of pure dependency
+	// contracts applied to terms that mention bound variables (no standalone fact can be added
+	// for those). The binder conjoins them to (exists) or assumes them in (forall) its body.
+	side      *[]Term
+	sideDepth int
+	// How a side condition A is attached to a binder's body P depends on whether P has to be
+	// established (A ==> P: the side condition may be used) or is available for use (A && P:
+	// the side condition comes with it). assumeMode: the clause is being assumed, not proved;
+	// negPol: syntactic polarity inside the clause; ambig: under <==> or a Boolean equality.
+	assumeMode bool
+	negPol     bool
+	ambig      int
 }
 
 func (x *Exec) newEnv(fr *Frame, st *State) *Env {
@@ -126,7 +138,13 @@ func (e *Env) eval(ex Expr) (Value, error) {
 			}
 			return nil, fmt.Errorf("no field %s", sel.Name)
 		}
+		if ex.Op == "!" {
+			e.negPol = !e.negPol
+		}
 		v, err := e.eval(ex.X)
+		if ex.Op == "!" {
+			e.negPol = !e.negPol
+		}
 		if err != nil {
 			return nil, err
 		}
@@ -202,9 +220,82 @@ func (e *Env) quant(q EQuant) (Value, error) {
 	// suppressed via e.def; the executor helpers used below (load/mapValAt/...) only build terms.
 	saveSt := e.st
 	e.st = e.st.clone()
+	saveSide := e.side
+	var side []Term
+	e.side = &side
 	body, err := e.evalBool(q.Body)
+	var pats []string
+	if err == nil {
+		for _, pat := range q.Pats {
+			var ts []string
+			for _, pe := range pat {
+				pv, perr := e.eval(pe)
+				if perr != nil {
+					err = fmt.Errorf("trigger %s: %v", exprString(pe), perr)
+					break
+				}
+				if r, ok := objRef(pv); ok {
+					ts = append(ts, r)
+				} else {
+					ts = append(ts, flatten(pv)[0])
+				}
+			}
+			pats = append(pats, ":pattern ("+strings.Join(ts, " ")+")")
+		}
+	}
+	e.side = saveSide
 	e.st = saveSt
 	e.inQuant--
+	if err == nil && len(side) > 0 {
+		// Side conditions A (postconditions of pure dependency contracts applied to bound
+		// variables) can be attached to the body P as a guard (A ==> P) or as a conjunct
+		// (A && P). Both are sound: A is a trusted postcondition. What the clause has to
+		// establish gets the form that is easier to prove, what it may use gets the stronger
+		// one. For a universal that is handed to the solver as a fact the conjunct form is the
+		// complete one, but stating A for all values was seen to stall z3 on otherwise easy
+		// queries; such spots are marked (SIDE! A P) and rendered both ways (see smtTextOpt):
+		// "and" in the main query, "=>" in an auxiliary one of which only "unsat" is used.
+		sideT := And(side...)
+		universal := q.Forall != e.negPol // as seen from the clause as a whole
+		usable := e.assumeMode            // the clause is a fact (true) or a goal (false)
+		switch {
+		case e.ambig > 0:
+			if q.Forall {
+				body = Implies(sideT, body)
+			} else {
+				body = And(sideT, body)
+			}
+		case usable && universal:
+			// a universal fact: forall x. SIDE(A, P)   /  not exists x. SIDE'(A, P)
+			if q.Forall {
+				body = "(SIDE! " + sideT + " " + body + ")"
+			} else {
+				body = And(sideT, body) // not exists x. (A && P)  ==  forall x. A ==> !P  (the guarded form)
+			}
+		case usable && !universal:
+			// an existential fact: the witness comes with its side conditions
+			if q.Forall {
+				body = Implies(sideT, body) // not forall x. (A ==> P)  ==  exists x. A && !P
+			} else {
+				body = And(sideT, body)
+			}
+		case !usable && universal:
+			// a universal to establish: the side conditions may be used
+			if q.Forall {
+				body = Implies(sideT, body)
+			} else {
+				body = And(sideT, body) // not exists x. (A && P)  ==  forall x. A ==> !P
+			}
+		default:
+			// an existential to establish (or a universal the goal negates): nothing about A
+			// has to be proved for the witness
+			if q.Forall {
+				body = And(sideT, body) // not forall x. (A && P)  ==  exists x. !A || !P
+			} else {
+				body = Implies(sideT, body)
+			}
+		}
+	}
 	for _, v := range q.Vars {
 		delete(e.vars, v)
 		if old, ok := saved[v]; ok {
@@ -217,6 +308,9 @@ func (e *Env) quant(q EQuant) (Value, error) {
 	kw := "exists"
 	if q.Forall {
 		kw = "forall"
+	}
+	if len(pats) > 0 {
+		body = "(! " + body + " " + strings.Join(pats, " ") + ")"
 	}
 	return boolV("(" + kw + " (" + strings.Join(decl, " ") + ") " + body + ")"), nil
 }
@@ -556,6 +650,11 @@ func (e *Env) index(ex EIndex) (Value, error) {
 		return nil, err
 	}
 	switch b := xv.(type) {
+	case TupleV:
+		if ci, ok := ex.I.(EInt); ok && int(ci.V) < len(b.E) {
+			return b.E[ci.V], nil
+		}
+		return nil, fmt.Errorf("a tuple is indexed by a constant within its length")
 	case SliceV:
 		return e.x.elemLoad(e.st, b, flatten(iv)[0]), nil
 	case MapV:
@@ -608,11 +707,26 @@ func rawKey(v Value, kt types.Type) (Term, bool) {
 func (e *Env) binary(ex EBinary) (Value, error) {
 	switch ex.Op {
 	case "&&", "||", "==>", "<==>":
+		switch ex.Op {
+		case "==>":
+			e.negPol = !e.negPol
+		case "<==>":
+			e.ambig++
+		}
 		a, err := e.evalBool(ex.X)
+		if ex.Op == "==>" {
+			e.negPol = !e.negPol
+		}
 		if err != nil {
+			if ex.Op == "<==>" {
+				e.ambig--
+			}
 			return nil, err
 		}
 		b, err := e.evalBool(ex.Y)
+		if ex.Op == "<==>" {
+			e.ambig--
+		}
 		if err != nil {
 			return nil, err
 		}
@@ -1058,6 +1172,14 @@ func (e *Env) call(ex ECall) (Value, error) {
 		}
 	}
 	rt := fn.Type().(*types.Signature).Recv().Type()
+	if pv, isPtr := recv.(PtrV); isPtr {
+		if _, wantPtr := rt.Underlying().(*types.Pointer); !wantPtr {
+			if _, isIface := rt.Underlying().(*types.Interface); !isIface {
+				// value-receiver method called through a pointer: the receiver is the pointee, as in Go
+				recv = e.x.load(e.st, pv)
+			}
+		}
+	}
 	key := "(" + typeKey(rt) + ")." + sel.Name
 	full := "(" + types.TypeString(rt, nil) + ")." + sel.Name
 	return e.pureCall(fn, []string{key, full, "(" + typeKey(t) + ")." + sel.Name}, append([]Value{recv}, args...))
@@ -1127,6 +1249,9 @@ func (e *Env) specCall(spec *FuncSpec, args []Value, rt types.Type) (Value, erro
 				if p := x.L.Prog.ImportedPackage(k[:i]); p != nil {
 					if fn := p.Func(k[i+1:]); fn != nil && fn.Signature.Results().Len() == 1 {
 						rt = fn.Signature.Results().At(0).Type()
+					} else if fn != nil && fn.Signature.Results().Len() > 1 {
+						// several results: the value is a tuple, indexed with [0], [1], ...
+						rt = fn.Signature.Results()
 					}
 				}
 			}
@@ -1165,6 +1290,29 @@ func (e *Env) specCall(spec *FuncSpec, args []Value, rt types.Type) (Value, erro
 			ts[i] = App(f, argTerms...)
 		}
 		v, _ := unflatten(rt, ts)
+		if len(spec.Ensures) > 0 && e.inQuant > 0 && e.side != nil && e.sideDepth < 2 {
+			env := x.newEnv(e.fr, e.st)
+			env.callee = true
+			env.inQuant = e.inQuant
+			env.side = e.side
+			env.sideDepth = e.sideDepth + 1
+			env.ambig = 1 // the postcondition itself is only ever used, never to be established
+			bindSpecArgs(env, spec, args)
+			bindResults(env, v)
+			for _, en := range spec.Ensures {
+				if t, err := env.evalBool(en.E); err == nil && t != "true" {
+					dup := false
+					for _, o := range *e.side {
+						if o == t {
+							dup = true
+						}
+					}
+					if !dup {
+						*e.side = append(*e.side, t)
+					}
+				}
+			}
+		}
 		if len(spec.Ensures) > 0 && e.inQuant == 0 {
 			env := x.newEnv(e.fr, e.st)
 			env.callee = true
@@ -1199,7 +1347,7 @@ func bindSpecArgs(env *Env, spec *FuncSpec, args []Value) {
 
 // evalOld evaluates in the entry state, where only parameters exist.
 func (e *Env) evalOld(ex Expr) (Value, error) {
-	sub := &Env{x: e.x, fr: e.fr, cur: e.cur, st: e.old, old: e.old, vars: map[string]Value{}, pos: e.pos, inQuant: e.inQuant, callee: e.callee}
+	sub := &Env{x: e.x, fr: e.fr, cur: e.cur, st: e.old, old: e.old, vars: map[string]Value{}, pos: e.pos, inQuant: e.inQuant, callee: e.callee, side: e.side, sideDepth: e.sideDepth, assumeMode: e.assumeMode, negPol: e.negPol, ambig: e.ambig}
 	for k, v := range e.vars {
 		sub.vars[k] = v // bound variables, metavariables passed explicitly
 	}
